@@ -59,6 +59,7 @@ def followup(stage, lines, model, checked, release, tier, rng):
             # deterministic signing through long rejection streaks (a key with an extreme t0 rejects most iterations):
             # still no draw, and the same signature every time
             csk = K.craft_sk(s, sk, p.k, (0.7 if p.gamma2 == (S.Q - 1) // 88 else 1.0), rng)
+            _st.setdefault("crafted", []).append(csk)
             for _ in range(2):
                 ops.append("sign::%s::signature %s %s 0 real" % (s, K.hx(R(8)), csk))
             ops.append("sign::%s::keypair %s real" % (s, "00" * 32))      # boundary seeds: still no draw
@@ -79,15 +80,25 @@ def followup(stage, lines, model, checked, release, tier, rng):
             L.append("@impl freshthreads %d sign::%s::signature %s %s 1 real" % (nthr, s, K.hx(b"fresh"), sk))
         return L
     if stage == 2:
+        seen2 = set()
         # replay each logged draw as a scripted tape: the model (and the code) must reproduce the logged output
         for ln, ans in zip(lines, checked):
             if not ln.startswith("@impl rnglog ") or not ans.startswith("ok "):
                 continue
             head, out = ans.split(" | ", 1)
             h = head.split()
-            if h[1] == "0":
-                continue
             inner = ln[len("@impl rnglog "):]
+            if h[1] == "0":
+                # no draw: the output must be the model's (= the specification's) function of the arguments alone
+                t = inner.split(" ")
+                if "real" in t and ("::signature" in t[0] or "::SecretKey::" in t[0]):
+                    t[t.index("real")] = "-"
+                    q = " ".join(t)
+                    if any(c in inner for c in _st.get("crafted", [])):
+                        q = "@impl " + q        # long rejection streaks: too slow for the model, the code must still repeat itself
+                    if q not in seen2:
+                        seen2.add(q); _st["logs"].append((q, out)); L.append(q)
+                continue
             t = inner.split(" ")
             pos = [i for i, x in enumerate(t) if x == "real"][0]
             t[pos] = h[3]
